@@ -238,13 +238,18 @@ class C08(Spec):
                  '"first declared triple with that class name", for all type records, histories and interleavings of atomic steps; the cache table, '
                  'layout constants, declared matrix and the texts of the modelled functions are regenerated from the source on every run; '
                  'white-box differential check against the real library plus a direct oracle from the source-text matrix and a raw record scan')
-    level_text = ('Theorems C08_lookup_exact / C08_concurrent: for every type record (any number of triples in any order, duplicate class names, '
-                  'distinct class objects sharing a name), every class and every history or interleaving of lookups from any number of threads, '
+    level_text = ('Theorems C08_lookup_exact / C08_current_source: for every type record (any number of triples in any order, duplicate class names, '
+                  'distinct class objects sharing a name), every class and every history of lookups, cold or warm, '
                   'instance/type_instance/implements/implements_method/method lookups return exactly what the first triple with that class name '
-                  'declares, ClassError exactly for an absent class or NULL member, cast ValueError exactly for another type; stated for the '
-                  'Type_Cache_Entry table, CELLO_CACHE_NUM and the declared matrix of the current source (regenerated each run, table facts by decide). '
-                  'The model is tied to the library by running the full built-in (type, class, member) matrix, run-time types with 0..256 '
-                  'instances, static probe types and 16-thread cold-cache races on both, comparing results and the concrete cache/memo words.')
+                  'declares (a function of the declaration only), and the cache/memo invariant is preserved; C08_classerror_partial: ClassError exactly '
+                  'for an absent class or NULL member (for types and classes other than Terminal: known finding KF-C08-terminal-message, refuted '
+                  'statement kept beside it); C08_cast_exact / C08_bad_self: cast returns self exactly for the object\'s own type, ValueError otherwise, '
+                  'ValueError/TypeError for NULL, freed, foreign and non-type selves; C08_concurrent / C08_concurrent_complete / C08_wait_free: the same '
+                  'results under every interleaving of atomic word accesses of any number of threads, every thread completing within 2n+10 own steps per '
+                  'lookup; C08_machine_refines_sequential: the step machine run alone computes the sequential functions. All stated for the '
+                  'Type_Cache_Entry table, CELLO_CACHE_NUM, CELLO_NBUILTINS and function texts of the current source (regenerated each run, table facts by '
+                  'decide). The model is tied to the library by running the full built-in (type, class, member) matrix, run-time types with 0..257 '
+                  'instances, static probe types and 16-thread cold-cache races on both, comparing results and the concrete cache/memo/header words.')
     level_note = ('Trusted: Lean kernel; axioms propext/Quot.sound/Classical.choice at most; the regex translator g_disp.py; harness/driver comparison '
                   '(testing); word-atomic loads and stores of pointers (the concurrency theorem is about interleavings of atomic word accesses, '
                   'not about a weak memory model). Not covered: CELLO_NDEBUG / CELLO_CACHE=0 builds (C18), calling the returned member.')
@@ -258,7 +263,8 @@ class C08(Spec):
     trusted_base = ('translate/g_disp.py (regex/bracket matching over src/*.c, include/Cello.h): cache table, constants, declared matrix, function texts',
                     'harness/h_disp.c + lean/Driver/Disp.lean (correspondence is testing)',
                     'word-atomic loads/stores of pointer-sized words; dlsym to resolve type objects by name')
-    assumptions = ('type records are well-formed: every triple has a non-NULL name and instance pointer, the list ends with the NULL triple (what Cello()/Type_New build)',
+    assumptions = ('no throwing lookup (method of an absent class/member, failing cast, non-type self) is generated with the Terminal object as the type or the class: known finding KF-C08-terminal-message (witness corpus/kf_c08_terminal.ops)',
+                   'type records are well-formed: every triple has a non-NULL name and instance pointer, the list ends with the NULL triple (what Cello()/Type_New build)',
                    'member offsets are offsetof() values inside the class struct (an out-of-struct offset is undefined behaviour and is not generated)',
                    'a cached class is never looked up on a `self` that is not a type object (Type_Instance reads the cache word before any check)',
                    'default build (CELLO_CACHE on, checks on); loads and stores of pointer-sized words are atomic')
